@@ -31,4 +31,19 @@ PROPS = {
     ),
     "C17": dict(functions=[], lemmas=[], provenance=True, bounded="C17", level="other"),
     "C18": dict(functions=[], lemmas=[], provenance=True, bounded="C18", level="other"),
+    "C04": dict(functions=[], lemmas=[], bounded="C04", level="exploration"),
+    "C05": dict(functions=[], lemmas=[], bounded="C05", level="exploration"),
+    "C06": dict(functions=[], lemmas=[], bounded="C06", level="exploration"),
+    "C07": dict(functions=[], lemmas=[], bounded="C07", level="exploration"),
+    "C08": dict(functions=[], lemmas=[], bounded="C08", level="exploration"),
+    "C09": dict(functions=[], lemmas=[], bounded="C09", level="exploration"),
+    "C10": dict(functions=[], lemmas=[], bounded="C10", level="exploration"),
+    "C11": dict(functions=[], lemmas=[], bounded="C11", level="exploration"),
+    "C12": dict(functions=[], lemmas=[], bounded="C12", level="exploration"),
+    "C13": dict(functions=[], lemmas=[], bounded="C13", level="exploration"),
+    "C14": dict(functions=[], lemmas=[], bounded="C14", level="exploration"),
+    "C15": dict(functions=[], lemmas=[], bounded="C15", level="exploration"),
+    "C16": dict(functions=[], lemmas=[], bounded="C16", level="exploration"),
+    "C19": dict(functions=[], lemmas=[], bounded="C19", level="exploration"),
+    "C20": dict(functions=[], lemmas=[], bounded="C20", level="exploration"),
 }
